@@ -143,16 +143,74 @@ def compare(exp, got):
     return d
 
 
+def run_replay(ctx, exe, args, total, log_path, timeout=3000):
+    """Like vlib.run_batches, for a build in which ASan reports and UBSan vptr reports are recoverable: every report is attributed to
+    the unit announced by the driver's `@@X n` stderr marker; a fatal exit is recorded for the last announced unit and the run resumes."""
+    import re
+    k, sums, deaths = 0, [], []
+    open(log_path, "w").close()
+    env = {"ASAN_OPTIONS": vlib.SAN_ENV["ASAN_OPTIONS"] + ":halt_on_error=0:suppress_equal_pcs=0",
+           "UBSAN_OPTIONS": "print_stacktrace=1:halt_on_error=0:exitcode=72"}
+    while k < total:
+        rc, so, se = vlib.run_exe(exe, list(args) + ["--from", k, "--to", total, "--log", log_path], timeout=timeout, env=env)
+        units, cur, buf = [], None, []
+        for ln in se.splitlines(True):
+            m = re.match(r"@@X (\d+)", ln)
+            if m:
+                if cur is not None:
+                    units.append((cur, "".join(buf)))
+                cur, buf = int(m.group(1)), []
+            else:
+                buf.append(ln)
+        if cur is not None:
+            units.append((cur, "".join(buf)))
+        for unit, txt in units:
+            fatal = rc != 0 and unit == units[-1][0]
+            if "ERROR: AddressSanitizer" in txt:
+                d = vlib.classify_death(71, txt)
+            elif "runtime error:" in txt:
+                d = vlib.classify_death(72, txt)
+            elif fatal:
+                d = vlib.classify_death(rc, txt)
+            else:
+                continue
+            if d:
+                d["x"], d["fatal"] = unit, fatal
+                d["frame"] = re.sub(r"0x[0-9a-f]+", "0x?", d.get("frame") or "")
+                marks = [m for m in ("trigger_receiver::set_done", "source_receiver::set_done", "cancel_callback", "cancel_next_callback", "handle_signal",
+                                     "trigger_next_done", "start_trigger_cleanup", "start_cleanup") if m in txt]
+                d["marks"] = marks
+                deaths.append(d)
+        for ln in so.splitlines():
+            if ln.startswith("{"):
+                try:
+                    sums.append(json.loads(ln))
+                except Exception:
+                    pass
+        if rc == 0:
+            break
+        x = units[-1][0] if units else k
+        with open(log_path, "a") as f:
+            f.write('\n{"e":"Aborted","x":%d}\n' % x)
+        if len(deaths) > 2000:
+            ctx.rep.note("stopped after %d sanitizer reports" % len(deaths))
+            break
+        k = x + 1
+    return sums, deaths
+
+
 def ev_sig(e):
     if not e:
         return "end-of-log"
     k = e.get("e", "?")
+    if k == "End":
+        return "End:live=%s:bad=%s" % (e.get("live"), e.get("bad"))
     if k == "OpDtor":
         return "OpDtor:%s:live=%s:running=%s" % (e.get("k"), e.get("live"), e.get("running"))
     if k in ("NextStart", "CleanupStart", "NextDone", "CleanupDone", "TouchDead"):
         return "%s:%s" % (k, e.get("what", e.get("ch", "")))
     if k in ("Result", "DrvCleanupDone", "DrvNextDone"):
-        return "%s:%s" % (k, e.get("ch"))
+        return "%s:%s%s" % (k, e.get("ch"), ":null" if e.get("v") == -997 else "")
     return k
 
 
@@ -242,12 +300,13 @@ def run(ctx):
     gdir = os.path.join(vlib.VERIF, "_build", "stream_gen_" + gh)
     files = gen_cpp(cat, gdir)
     exe = vlib.build(ctx, "stream_driver", [os.path.join(HERE, "driver.cpp")] + files,
-                     lib=["inplace_stop_token.cpp", "async_stack.cpp", "exception.cpp"], incs=[HERE], opt="-O0", recover=True)
+                     lib=["inplace_stop_token.cpp", "async_stack.cpp", "exception.cpp"], incs=[HERE], opt="-O0", recover=True,
+                     extra=["-fsanitize-recover=vptr"])
     # ---- replay
     outp = os.path.join(ctx.work, "replay_out.ndjson")
     lp = os.path.join(ctx.work, "stream_log.ndjson")
     t0 = time.time()
-    sums, deaths = vlib.run_batches(ctx, exe, ["--behaviours", bp, "--out", outp], len(behaviours), lp, timeout=3000, recover=True)
+    sums, deaths = run_replay(ctx, exe, ["--behaviours", bp, "--out", outp], len(behaviours), lp)
     rep.note("replayed %d behaviours in %.1fs" % (sum(s["ran"] for s in sums), time.time() - t0))
     got = {}
     for l in open(outp):
@@ -267,11 +326,12 @@ def run(ctx):
         b = behaviours[x] if x < len(behaviours) else None
         sh, steps = desc(b) if b else ({"text": "?", "kind": []}, None)
         kinds = sorted(set(sh["kind"]))
-        sig = "%s|%s:%s:%s" % ("take_until" if "take_until" in kinds else "-", d["event"], d.get("asan", ""), d.get("frame", ""))
+        sig = "%s|%s:%s:%s@%s" % ("take_until" if "take_until" in kinds else "-", d["event"], d.get("asan", ""), d.get("frame", ""), ",".join(d.get("marks", [])))
         rep.violation(dict(engine="stream", event=d["event"], shape=sh["text"], kinds=kinds, cfg=(b or {}).get("cfg"), steps=steps, sig=sig,
                            asan=d.get("asan"), frame=d.get("frame"), where=d.get("where"),
                            what="%s while replaying %s: %s %s" % (d["event"], sh["text"], d.get("asan", ""), d.get("frame", "")), detail=d.get("stderr_tail")))
     tainted = set(d["x"] for d in deaths)
+    rep.note("%d sanitizer / crash events in %d executions" % (len(deaths), len(tainted)))
     nmis = 0
     for x, b in enumerate(behaviours):
         r = got.get(x)
@@ -299,7 +359,8 @@ def run(ctx):
             nmis += 1
             kinds = sorted(set(sh["kind"]))
             rep.violation(dict(engine="stream", event="ObservationMismatch", shape=sh["text"], shape_id=sh["id"], kinds=kinds, fields=sorted(hard), step=at,
-                               sig="%s|ObservationMismatch:%s" % ("take_until" if "take_until" in kinds else "-", ",".join(sorted(hard))),
+                               sig="%s|ObservationMismatch:%s%s" % ("take_until" if "take_until" in kinds else "-", ",".join(sorted(hard)),
+                                                                      ":null-error" if any(rr[2] == -997 for rr in r["obs"][at]["res"]) else ""),
                                cfg=b["cfg"], steps=steps, what="%s: %s [cfg %s, steps %s, at step %s]" % (
                                    sh["text"], "; ".join(hard.values()), json.dumps(b["cfg"], sort_keys=True), steps, at)))
     # ---- code -> spec: every recorded execution validated by TLC against StreamMon
@@ -307,7 +368,7 @@ def run(ctx):
     # touched after destruction) are validated one by one, up to a cap; all others in large batches
     t0 = time.time()
     execs = vlib.split_executions(lp)
-    susp = [(x, lines) for x, lines in execs if x not in tainted and any(('"live":0' in ln or '"running":1' in ln or '"TouchDead"' in ln) for ln in lines)]
+    susp = [(x, lines) for x, lines in execs if x not in tainted and any(('"TouchDead"' in ln or ('"OpDtor"' in ln and ('"live":0' in ln or '"running":1' in ln))) for ln in lines)]
     susp_x = set(x for x, _ in susp)
     maxrep = int(os.environ.get("VERIF_STREAM_MAXREP", "10"))
     n, rejected = vlib.validate_batched(ctx, "stream", "StreamMon", lp, skip_x=tainted | susp_x, max_reports=maxrep)
